@@ -262,6 +262,7 @@ type VC struct {
 	inCommute   bool            // inside the hypothetical iterations of a commute obligation
 	pureDecl    map[string]bool
 	resolveDepth int
+	needPadLemma bool // a byte copy was modelled in math mode: the window axioms are part of the prelude
 	timeSort    *Sort // sort of time.Time once timedec has been declared
 	commuteKeys map[string][]Val // "@loopN." -> the two keys of that loop's commute obligations (key1/key2 in a finding's class)
 	commuteKeyT map[string]types.Type
